@@ -437,6 +437,7 @@ def raw_lost_post_oracle(log):
     """loop-harness log (one thread): a post to a registered iv_event_raw object (RAWPOST rK) must be followed by its handler (CB rK) before
     the object is unregistered or the run ends; posts made while the handler has not yet run coalesce"""
     owed = {}            # object -> line of the oldest unanswered post
+    waits_since = {}     # object -> kernel returns since that post
     reg = set()
     for n, l in enumerate(log.splitlines(), 1):
         w = l.split()
@@ -452,8 +453,17 @@ def raw_lost_post_oracle(log):
             reg.discard(w[2]); owed.pop(w[2], None)
         elif w[0] == "RAWPOST" and w[1] in reg:
             owed.setdefault(w[1], n)
+            waits_since.setdefault(w[1], 0)
         elif w[0] == "CB" and w[1] in owed:
-            owed.pop(w[1])
+            owed.pop(w[1]); waits_since.pop(w[1], None)
+        elif w[0] == "WRET":
+            # the loop came back from the kernel: a post made before this wait is delivered before the loop waits again; three returns
+            # without the handler = the post is lost (e.g. the descriptor stays readable but is never dispatched: the loop spins)
+            for k in list(waits_since):
+                waits_since[k] += 1
+                if waits_since[k] >= 4 and k in owed:
+                    return (f"post to {k} (line {owed[k]}) was never followed by its handler although the loop returned from the kernel "
+                            f"{waits_since[k]} times afterwards and {k} stayed registered")
         elif w[0] in ("WAITLIMIT", "CBLIMIT"):
             return None     # inconclusive
     if owed and ("BLOCKED" in log or "EOF" in log):
